@@ -251,6 +251,120 @@ fn class_of(a: i64) -> &'static str {
     }
 }
 
+/// Nested forms: `a op1 b op2 c` is two operations in source order (left to right for these
+/// operators), each rounded / wrapped on its own, whichever operands are constants - a folder
+/// that combines constants across a run-time operand changes rounding, overflow and underflow.
+/// Every operator pair x operand triple on a small grid x {all run-time, each single operand
+/// run-time, all literal}; chains whose reference fails are not compared (C04, C12 own those).
+fn chains(thorough: bool) -> (u64, Vec<Violation>) {
+    let fvals: Vec<f64> = vec![0.0, -0.0, 1.0, 0.1, 0.2, 0.3, -2.5, 3.0, f64::INFINITY, 5e-324, 1e-300, 1e200, 1e308, f64::MAX];
+    let ivals: Vec<i64> = if thorough { vec![0, 1, -1, 2, 3, 7, 63, 64, i64::MAX, i64::MIN, 3037000500, -10] } else { vec![0, 1, -1, 2, 3, 7, 64, i64::MAX, i64::MIN] };
+    const FOPS: &[&str] = &["+", "-", "*", "/"];
+    const IOPS: &[&str] = &["+", "-", "*", "/", "%", "<<", ">>", "&", "|", "^"];
+    let fnum = |r: &Ref| -> Option<f64> {
+        match r {
+            Ref::Val(v) if v == "NaN" => Some(f64::NAN),
+            Ref::Val(v) => v.trim_start_matches('f').parse().ok(),
+            _ => None,
+        }
+    };
+    // work items: (is_float, op1, op2, index of a)
+    let mut items: Vec<(bool, bool, &str, &str, usize)> = Vec::new();
+    for o1 in FOPS {
+        for o2 in FOPS {
+            for ia in 0..fvals.len() {
+                items.push((true, true, o1, o2, ia));
+                items.push((true, false, o1, o2, ia));
+            }
+        }
+    }
+    for o1 in IOPS {
+        for o2 in IOPS {
+            for ia in 0..ivals.len() {
+                items.push((false, true, o1, o2, ia));
+                items.push((false, false, o1, o2, ia));
+            }
+        }
+    }
+    let accs = par_fold(items.len(), || (Interpreter::with_stdlib(), Acc::default()), |(interp, acc), i| {
+        let (is_float, left, o1, o2, ia) = items[i];
+        // explicit parentheses: grouping is C14's subject, not this check's
+        let shape = |x: &str, y: &str, z: &str| if left { format!("({x} {o1} {y}) {o2} {z}") } else { format!("{x} {o1} ({y} {o2} {z})") };
+        let n = if is_float { fvals.len() } else { ivals.len() };
+        let ty = if is_float { "float" } else { "int" };
+        let all_rt = define(interp, &format!("f := (a: {ty}, b: {ty}, c: {ty}) -> any {{ return {} }}", shape("a", "b", "c")));
+        for ib in 0..n {
+            for ic in 0..n {
+                let (expect, lits, args): (Ref, [Option<String>; 3], Vec<Variable>) = if is_float {
+                    let (a, b, c) = (fvals[ia], fvals[ib], fvals[ic]);
+                    let e = if left {
+                        let Some(x) = fnum(&ref_float(o1, a, b)) else { continue };
+                        ref_float(o2, x, c)
+                    } else {
+                        let Some(x) = fnum(&ref_float(o2, b, c)) else { continue };
+                        ref_float(o1, a, x)
+                    };
+                    (e, [float_lit(a), float_lit(b), float_lit(c)], vec![a.into(), b.into(), c.into()])
+                } else {
+                    let (a, b, c) = (ivals[ia], ivals[ib], ivals[ic]);
+                    let e = if left {
+                        let Ref::Val(x) = ref_int(o1, a, b) else { continue };
+                        let Ok(x) = x.parse::<i64>() else { continue };
+                        ref_int(o2, x, c)
+                    } else {
+                        let Ref::Val(x) = ref_int(o2, b, c) else { continue };
+                        let Ok(x) = x.parse::<i64>() else { continue };
+                        ref_int(o1, a, x)
+                    };
+                    (e, [Some(int_lit(a)), Some(int_lit(b)), Some(int_lit(c))], vec![a.into(), b.into(), c.into()])
+                };
+                if matches!(expect, Ref::Err(_)) {
+                    continue;
+                }
+                // masks: bit k set = operand k is a literal
+                for mask in [0b000usize, 0b110, 0b101, 0b011, 0b111] {
+                    if (0..3).any(|k| mask & (1 << k) != 0 && lits[k].is_none()) {
+                        continue;
+                    }
+                    let got = if mask == 0 {
+                        call(&all_rt, args.clone())
+                    } else if mask == 0b111 {
+                        literal(interp, &shape(lits[0].as_ref().unwrap(), lits[1].as_ref().unwrap(), lits[2].as_ref().unwrap()))
+                    } else {
+                        let rt = (0..3).find(|k| mask & (1 << k) == 0).unwrap();
+                        let name = |k: usize| if k == rt { "x".to_string() } else { lits[k].clone().unwrap() };
+                        let text = format!("f := (x: {ty}) -> any {{ return {} }}", shape(&name(0), &name(1), &name(2)));
+                        match guard(|| Code::parse(interp, &text)) {
+                            Ok(Ok(code)) => match guard(|| code.exec()) {
+                                Ok(Ok(Variable::Function(g))) => call(&g, vec![args[rt].clone()]),
+                                _ => Ref::Err("DEFINE FAILED"),
+                            },
+                            Ok(Err(e)) => Ref::Err(leak(format!("REJECTED {}", core::error_kind(&e)))),
+                            Err(Stop::Panic(p)) => Ref::Err(leak(format!("PANIC {} @{}", p.short_msg(), p.file()))),
+                            Err(Stop::Exhausted) => Ref::Err("EXHAUSTED"),
+                        }
+                    };
+                    acc.evals += 1;
+                    if got != expect && got != Ref::Err("EXHAUSTED") {
+                        let shown: Vec<String> = args.iter().map(|v| canon(v)).collect();
+                        acc.violations.push(Violation {
+                            sig: format!("C08|{ty} chain {}|literal-operands={mask:03b}|a={}|b={}|c={}", shape("a", "b", "c"), shown[0], shown[1], shown[2]),
+                            detail: json!({"kind": "scalar", "expression": shape("a", "b", "c"), "a": shown[0], "b": shown[1], "c": shown[2], "literal_operand_mask (bit k = operand k)": format!("{mask:03b}"), "expected": format!("{expect:?}"), "observed": format!("{got:?}")}),
+                        });
+                    }
+                }
+            }
+        }
+    });
+    let mut n = 0u64;
+    let mut out = Vec::new();
+    for (_, a) in accs {
+        n += a.evals;
+        out.extend(a.violations);
+    }
+    (n, out)
+}
+
 pub fn run(tier: &str) -> i32 {
     let thorough = tier == "thorough";
     let mut report = Report::new("C08", tier);
@@ -530,7 +644,10 @@ pub fn run(tier: &str) -> i32 {
     samples.push(|| json!({"float_case": "NaN == NaN, -0.0 / 0.0, 5e-324 * 0.5 ..."}));
     samples.push(|| json!({"compound_case": "c := mut MIN; c /= -1  ->  (MIN, MIN)"}));
 
+    let chain = chains(thorough);
+    report.violations(chain.1);
     let Acc { evals, errors, outcomes, violations } = acc;
+    let evals = evals + chain.0;
     report.violations(violations);
     let coverage = json!({
         "states": (grid.len() * grid.len() * INT_OPS.len() + fgrid.len() * fgrid.len() * FLOAT_OPS.len()),
@@ -538,6 +655,7 @@ pub fn run(tier: &str) -> i32 {
         "traces_validated_against_impl": evals,
         "int_grid_size": grid.len(),
         "float_grid_size": fgrid.len(),
+        "chain_evaluations ((a op1 b) op2 c and a op1 (b op2 c); every operator pair x operand triple x which operands are literals)": chain.0,
         "int_operators": INT_OPS.len(),
         "forms": ["literal (folded)", "parameter (run time)", "compound assignment"],
         "reference_error_cases": errors,
